@@ -434,7 +434,9 @@ def observeWord (subj : List Char) (w : PWord) : String × String :=
   -- the glob semantics, the trims by `specTrim`
   let ast := specParse (specWordChars w)
   let spec :=
-    if !noEscapedMark (wordAttrs w) || !astDefined ast then "-"
+    -- a raw backslash directly before a quotation mark (`noEscapedMark` false) is judged like everything else:
+    -- the backslash quotes the next character quote removal leaves (XCU 2.13.1)
+    if !astDefined ast then "-"
     else
       let sarm := if globMatch ast subj then "1" else "0"
       let ts := if hasSeq ast then trims.filter (fun x => x.1 == TrimSide.suffix) else trims
@@ -448,6 +450,50 @@ def observeWord (subj : List Char) (w : PWord) : String × String :=
           then "FAIL:array-trim" else "ok"
   (obs, spec)
 
+/-! `f` cases: `Regex::find_at` at every start offset, for the four configurations whose regex has no `\A` -/
+
+def observeFindAt (ast : Ast) (text : List Char) : String × String :=
+  let cfgs : List (Bool × Bool) := [(false, false), (false, true), (true, false), (true, true)]
+  match Pattern.fromAst ast (mkCfg false false false false) with
+  | .error e => (s!"E={showErr e}", "-")
+  | .ok p0 =>
+    match p0.body with
+    | .literal _ => ("L", "-")
+    | .regex _ _ =>
+      let groups := cfgs.map fun (ae, sh) =>
+        match Pattern.fromAst ast (mkCfg false ae sh false) with
+        | .ok { body := .regex re _, .. } =>
+          ",".intercalate ((List.range (text.length + 1)).map fun k => showRange text (findAt (!sh) re text k))
+        | _ => "?"
+      (s!"W={"/".intercalate groups}", "-")
+
+/-! `t` cases: `*a` × k ++ `*b` against `a` × n ++ tail.  Up to n = 8 the driver runs the model; beyond, the closed form
+    (which it checks against the model on the small sizes: `bad-formula`). -/
+
+def timeFamilyFormula (k n : Nat) (tail : List Char) : Option (Bool × List Nat) :=
+  let len := n + tail.length
+  if tail = [] then some (false, [len, len, len, len])
+  else if tail = ['b'] then
+    if k ≤ n then some (true, [0, 0, n - k, 0]) else some (false, [len, len, len, len])
+  else if tail = ['b', 'a'] then
+    if k ≤ n then some (false, [1, 1, len, len]) else some (false, [len, len, len, len])
+  else none
+
+def observeTime (k n : Nat) (tail : List Char) : String × String :=
+  let show_ (r : Bool × List Nat) : String := s!"M={bit r.1} T={",".intercalate (r.2.map toString)}"
+  match timeFamilyFormula k n tail with
+  | none => ("bad-case", "-")
+  | some f =>
+    if n ≤ 8 then
+      let ast : Ast := ((List.replicate k [Atom.anyString, Atom.char 'a']).flatten) ++ [.anyString, .char 'b']
+      let text := List.replicate n 'a' ++ tail
+      let full := match Pattern.fromAst ast (mkCfg true true false false) with
+        | .ok p => p.isMatch text
+        | .error _ => false
+      let r := (full, trims.map fun (sd, ln) => (trimAst sd ln ast text).length)
+      if r != f then ("bad-formula", "-") else (show_ r, "-")
+    else (show_ f, "-")
+
 def runLine (line : String) : String :=
   let r : Option (String × String) :=
     match words line with
@@ -458,6 +504,13 @@ def runLine (line : String) : String :=
       pure (observe (parseAtoms pcs) (specParse pcs) t)
     | ["s", s, q1, p1, q2, p2] => do
       pure (observeShell (← decChars s) (← decChars q1) (← decChars p1) (← decChars q2) (← decChars p2))
+    | ["f", esc, p, t] => do
+      let p ← decChars p
+      let t ← decChars t
+      let pcs := if esc == "e" then withEscape p else withoutEscape p
+      pure (observeFindAt (parseAtoms pcs) t)
+    | ["t", k, n, tail] => do
+      pure (observeTime (← k.toNat?) (← n.toNat?) (← decChars tail))
     | ["w", s, wd] => do
       pure (observeWord (← decChars s) (← parseWord wd))
     | ["a", ast, t] => do
